@@ -30,7 +30,7 @@ CHECKS = {
     'C14': dict(
         engine='opsim', level='exploration', design_ref='DESIGN.md 4',
         technique='deterministic simulation with fault injection: seeded solve histories on one matrix / System through a fault-injecting numerical back end at the matrix.backend() plug-in seam, every returned vector certified by an independent dense NumPy recomputation',
-        text='Seeded search over histories of solves on one matrix object (changing constraints boolean/NaN-float/row, right-hand sides incl. several at once, lhs0, tolerances, solvers, preconditioners) and on one solver.System (all methods, step sequences with bisection retry, solve_constraints, legacy wrappers) while a fault injector behind the real NumpyMatrix makes the back end return inexact, non-finite, huge or stagnating results or raise. Every returned vector is certified with plain NumPy (constraints bit-exact, finiteness, residual within the requested tolerance plus rounding slack), every exception must be a matrix or solver error. Topology.project histories chain the returned constraint vector into the next call (and exact_boundaries) and are certified stage by stage with dense free normal equations. Ten genuine defects found this way were repaired in /repo (fix: commits, listed in known_findings.json); one more is recorded as a known finding.',
+        text='Seeded search over histories of solves on one matrix object (changing constraints boolean/NaN-float/row, right-hand sides incl. several at once, lhs0, tolerances, solvers, preconditioners) and on one solver.System (all methods, step sequences with bisection retry, solve_constraints, legacy wrappers) while a fault injector behind the real NumpyMatrix makes the back end return inexact, non-finite, huge or stagnating results or raise. Every returned vector is certified with plain NumPy (constraints bit-exact, finiteness, residual within the requested tolerance plus rounding slack), every exception must be a matrix or solver error. Topology.project histories chain the returned constraint vector into the next call (and exact_boundaries) and are certified stage by stage with dense free normal equations. Further fault kinds: allocation failure inside a sub-matrix extraction (with retry), matrices with a non-finite coefficient, complex parameter dependent systems. Fifteen genuine defects found this way were repaired in /repo (fix: commits, listed in known_findings.json); one more is recorded as a known finding.',
         note='Trusts NumPy/LAPACK for the dense oracle; with atol=rtol=0 only finiteness/constraints (and, for an honest back end and non-singular matrices, a small backward error) are checked; only the numpy back end exists in this sandbox; truncated Krylov with a diagonal preconditioner is not generated (converges too slowly to run, not a violation); known finding C14-arnoldi-without-tolerance-returns-stagnated-iterate (narrow class, see known_findings.json).'),
     'C16': dict(
         engine='procsim', level='exploration', design_ref='DESIGN.md 5',
@@ -45,8 +45,8 @@ CHECKS = {
     'C18': dict(
         engine='procsim', level='fault_enumeration', design_ref='DESIGN.md 6',
         technique='deterministic simulation with fault injection: seeded epochs of real forked caller processes under the baton scheduler on an instrumented file layer (torn writes, kills at file operations, ENOSPC/EIO, pre-existing partial entries), plus complete enumeration of kill offsets within recorded entry writes',
-        text='History mode: 1-4 epochs of 1-3 real caller processes (fresh per epoch: only the cache directory survives) run memoised calls and partial iterations of resumable recursions through the real nutils.cache code; the simulator decides the interleaving at every file operation / flock / function entry and injects kills in the middle of a write, kills at chosen operations, raising functions, abandoned iterations, ENOSPC/EIO and truncated/empty/old-format entries. Workloads include array arguments in near-collision variants (memory order, transposes, element width, strides), two iterators over one recursion alive in one consumer, iterators left suspended. Oracles: value and replayed log equal the uncached call, resume() starts from the right history, one process at a time inside the wrapped function per entry, progress. Enumeration mode: for entries recorded from a fault-free run EVERY byte offset at which the write can be cut is reconstructed and the call repeated twice (complete over that dimension for entries up to 4000 bytes); histories, schedules and payloads remain sampled.',
-        note='"killed" = SIGKILL of the process (completed writes survive); power loss is outside the statement; flock stub has kernel semantics (released on close and death); wrapped functions are deterministic, entries byte-stable across processes.'),
+        text='History mode: 1-4 epochs of 1-3 real caller processes (fresh per epoch: only the cache directory survives) run memoised calls and partial iterations of resumable recursions through the real nutils.cache code; the simulator decides the interleaving at every file operation / flock / function entry and injects kills in the middle of a write, kills at chosen operations, raising functions, abandoned iterations, ENOSPC/EIO and truncated/empty/old-format entries. Workloads include array arguments in near-collision variants (memory order, transposes, element width, strides), two iterators over one recursion alive in one consumer, iterators left suspended. The memoised System.solve workload takes every solution method as argument; crash-point sweeps kill a caller at every operation boundary. Oracles: value and replayed log equal the uncached call, resume() starts from the right history, one process at a time inside the wrapped function per entry, progress. Enumeration mode: for entries recorded from a fault-free run EVERY byte offset at which the write can be cut is reconstructed and the call repeated twice (complete over that dimension for entries up to 4000 bytes); histories, schedules and payloads remain sampled.',
+        note='"killed" = SIGKILL of the process (completed writes survive); power loss is outside the statement; flock stub has kernel semantics (released on close and death; LOCK_NB supported); two known findings narrow classes (see known_findings.json); wrapped functions are deterministic, entries byte-stable across processes.'),
 }
 PLANNED = ('C03', 'C14', 'C16', 'C17', 'C18')
 
@@ -80,7 +80,7 @@ def manifest():
         setup_cmd=f'{PY} /verif/bin/vsim setup',
         hooks=dict(
             guard='NUTILS_VERIF_SIM',
-            enable='no source hooks: every seam is a module attribute (nutils.parallel.os/multiprocessing/mmap, nutils.evaluable.multiprocessing, nutils.cache.fcntl/pathlib) or a plug-in interface (matrix.backend) replaced by the harness at run time; checks import nutils from /repo/src (VSIM_NUTILS_SRC overrides)',
+            enable='no source hooks: every seam is a module attribute (nutils.parallel.os/multiprocessing/mmap, nutils.evaluable.multiprocessing, nutils.cache.fcntl/pathlib, and nutils.cache.time if a change introduces it) or a plug-in interface (matrix.backend) replaced by the harness at run time; checks import nutils from /repo/src (VSIM_NUTILS_SRC overrides)',
             baseline_off_cmd='cd /repo && /venv/bin/python -m pytest -ra -q -p no:cacheprovider --timeout=900 --continue-on-collection-errors',
             source_commits=[],
             add_only=True,
